@@ -31,7 +31,7 @@ m = {
     "setup_cmd": "python3 run.py --setup",
     "hooks": {
         "guard": "verif",
-        "enable": "no source hooks: checks build /repo as it is with go1.26.8; in-package tests are mapped in at build time with go test -overlay/-modfile (nothing is written under /repo)",
+        "enable": "no source hooks: checks build /repo as it is with go1.26.8; in-package tests are mapped in at build time with go test -overlay/-modfile (nothing is written under /repo); the one piece of instrumentation, a yield call at the top of the HTTP/2 serve loop, is inserted into a COPY of /repo/pkg/http2/server.go taken from the current working tree at build time and mapped in the same way (units c12y, c13my, c13y; see DESIGN.md section 1.6)",
         "baseline_off_cmd": "cd /repo && GOFLAGS=-mod=mod go test -vet=off -count=1 -timeout 25m ./... && cd e2e/memtest && GOFLAGS=-mod=mod go test -vet=off -count=1 ./...",
         "source_commits": HOOK_COMMITS,
         "add_only": True,
